@@ -177,6 +177,7 @@ def rt(fcp: "ref:FcpV2", t: "ref:Type", v: "dyn", a: "seq[int]", b: "seq[int]"):
         val_of_word_bits(0, 8, a, b)
     else:
         val_of_word_bits(1, 8, a, wire(fcp, t.underlying_type, v) + b)
+        seq_assoc(a, word_bits(1, 8), wire(fcp, t.underlying_type, v), b)
         rt(fcp, t.underlying_type, v, a + word_bits(1, 8), b)
 
 
